@@ -21,7 +21,7 @@ for p in props:
             "engine": "pvmon",
             "level_claimed": {"category": t.get("category", "exploration"), "text": t["level"], "design_ref": "DESIGN.md section 3, %s" % p},
             "level_note": t["note"],
-            "technique": t["technique"],
+            "technique": t["technique"] + ("; thorough tier adds a coverage-guided stage: libFuzzer mutating the decision tape of the same generators, every execution judged by the same monitors" if PROPS[p].get("fuzz") else ""),
         })
     else:
         na.append({"property_id": p, "reason": NOT_APPLICABLE.get(p, "runtime monitor for this property is not built yet (work in progress); no claim is made")})
@@ -36,7 +36,7 @@ m = {
         "add_only": True,
     },
     "engines": [{"name": "pvmon", "path": "/verif/harness", "serves_properties": [c["property_id"] for c in checks],
-                 "kind_free_text": "Rust harness: reference-model / frame / history / trace monitors over the real pushr library, counting allocator, panic capture; python supervisor ./check (sharding, abort/hang mapping, aggregation, evidence)"}],
+                 "kind_free_text": "Rust harness: reference-model / frame / history / trace monitors over the real pushr library, counting allocator, panic capture; python supervisor ./check (sharding, abort/hang mapping, aggregation, evidence); harness/fuzz = libFuzzer entry over the harness generators' decision tape (thorough tier)"}],
     "checks": checks,
     "not_applicable": na,
     "notes": "Technique family: runtime monitoring and sanitizers. See DESIGN.md. Known findings: known_findings.json.",
